@@ -26,6 +26,7 @@ Case families
             holding keywords, near misses of ENDEXT, odd tokens, neighbouring blocks, a block at the very end of the text."""
 import json, re
 from vlib import *
+from props.kernelcommon import kernel_tie_leg
 from props.lefcommon import *
 
 HARNESS_BINS = ["c04"]
@@ -498,6 +499,9 @@ def nontrivial(c):
 
 def run(chk, replay=None):
     chk.proof_leg(["Lef/LefCheck.vo"], "Properties/C04.v", PROOF_FILES, "Properties.C04")
+    kernel_tie_leg(chk, "lef_write")      # LefWriter::write_layer_geom / write_geom / write_port / write_pin / write_via / write_site / write_units / write_density .. generated from lef21/src/write.rs = the lines of Lef/LefWrite.v (Properties/KernelsLef.v)
+    kernel_tie_leg(chk, "lef_write_lib")  # LefWriter::write_macro / format_numeric_prop_def / write_lib (the whole file) = write_macro / write_lib_lines of Lef/LefWrite.v, lines and failure alike
+    kernel_tie_leg(chk, "lef_parse")      # LefParser token helpers and parse_density generated from lef21/src/read.rs = Lef/LefParse.v (Properties/KernelsLef.v)
     chk.assumptions += [
         "rust_decimal's Decimal::from_str / PartialEq are an external library: specified in Lef/LefDec.v from its source (dec_of_bytes, dec_eq) and validated by the correspondence",
         "derive_builder `build()` is modelled by its documented behaviour (last setter wins, a missing required field is an error)",
